@@ -56,4 +56,12 @@ pub broadcast proof fn lemma_add_empty_right<A>(s: Seq<A>)
 pub broadcast proof fn lemma_add_empty_left<A>(s: Seq<A>)
     ensures #[trigger] (Seq::<A>::empty() + s) == s
 { assert(Seq::<A>::empty() + s =~= s); }
-pub broadcast group seq_ext { lemma_subrange_full, lemma_take_full, lemma_add_empty_right, lemma_add_empty_left }
+pub broadcast proof fn lemma_add_len0_left<A>(s: Seq<A>, t: Seq<A>)
+    requires s.len() == 0,
+    ensures #[trigger] (s + t) == t
+{ assert(s + t =~= t); }
+pub broadcast proof fn lemma_add_len0_right<A>(s: Seq<A>, t: Seq<A>)
+    requires t.len() == 0,
+    ensures #[trigger] (s + t) == s
+{ assert(s + t =~= s); }
+pub broadcast group seq_ext { lemma_subrange_full, lemma_take_full, lemma_add_empty_right, lemma_add_empty_left, lemma_add_len0_left, lemma_add_len0_right }
